@@ -259,3 +259,53 @@ func VF_Map_API() {
 	vf.Assert(sameMapView(x.m, y.m) && sameMapView(x.m, z.m), "C01 replicas keep agreeing as the history continues")
 	vf.Assert(x.m.Get(zk) == "z-last" && y.m.Get(zk) == "z-last", "C02 a write issued after seeing all others is the newest on every replica")
 }
+
+// VF_List_Readable (C04, C03): "a local insert at index i is immediately
+// readable at index i" through the public API, on a replica whose list was
+// shaped by its own earlier calls AND by operations received from another
+// replica (tombstones and remote elements around the insertion point, positions
+// chosen by the solver); afterwards both replicas hold the same list.
+func VF_List_Readable() {
+	vf.HashAbstract(true)
+	x, y := vfNewListPeer("x"), vfNewListPeer("y")
+	vf.Assume(x.l.GetCUID() != y.l.GetCUID())
+	_, e := x.l.InsertMany(0, "b0", "b1")
+	vf.Assert(e == nil, "base history succeeds")
+	y.receive(x.flush())
+	// x writes (often an append), y concurrently inserts two elements and may delete one
+	posX := vf.Int("x1.pos", 0, x.l.Size())
+	_, e = x.l.Insert(posX, "x1")
+	vf.Assert(e == nil, "C03 valid insert succeeds")
+	posY := vf.Int("y1.pos", 0, y.l.Size())
+	_, e = y.l.InsertMany(posY, "y1", "y2")
+	vf.Assert(e == nil, "C03 valid insert succeeds")
+	if vf.Choice("y-deletes", 2) == 1 {
+		_, e = y.l.Delete(vf.Int("y2.pos", 0, y.l.Size()-1))
+		vf.Assert(e == nil, "C03 valid delete succeeds")
+	}
+	ox, oy := x.flush(), y.flush()
+	x.receive(oy)
+	y.receive(ox)
+	vf.Assert(sameListView(x.l, y.l), "C01 replicas with the same operations expose the same list")
+	// now x inserts again, anywhere
+	size := x.l.Size()
+	before := listJSON(x.l)
+	pos := vf.Int("x2.pos", 0, size)
+	_, e = x.l.Insert(pos, "x2")
+	vf.Reach("inserted")
+	vf.Assert(e == nil, "C03 valid insert succeeds")
+	got, ge := x.l.Get(pos)
+	vf.Assert(ge == nil && got == "x2", "C04 a local insert at index i is immediately readable at index i")
+	after := listJSON(x.l)
+	vf.Assert(len(after) == size+1, "C03 the list grew by one")
+	for i := 0; i < size; i++ {
+		k := i
+		if i >= pos {
+			k = i + 1
+		}
+		vf.Assert(after[k] == before[i], "C03/C04 the other elements keep their order around the inserted one")
+	}
+	y.receive(x.flush())
+	vf.Assert(sameListView(x.l, y.l), "C01 replicas keep agreeing as the history continues")
+	vf.Assert(listInv(x.l.snapshot()) && listInv(y.l.snapshot()), "L3 invariant")
+}
